@@ -169,7 +169,7 @@ def h_names(c0: int, c1: int, c2: int, n: int, port: int) -> int:
 
 
 KEYS = ["0", "1", "k", "key", "user:42", "a-b", "0123456789abcdef", "x" * 40, "", "é", b"plain", b"o'brien", b"a\\b",
-        b"\x01\x7f", b"q\"uote"]
+        b"\x01\x7f", b"q\"uote", "€uro", "ключ-7", "日本語のキー", "k\U0001f600"]
 NODESETS = [["10.0.0.1:11211", "10.0.0.2:11211"], ["a:1", "b:1", "c:1"], ["n1:11211", "n2:11211", "n3:11211", "n4:11211"],
             ["/tmp/a.sock", "h:11211"], ["x:1"], ["s%d:11211" % i for i in range(8)]]
 
@@ -196,9 +196,9 @@ def h_murmur(ns: int, k: int, seed: int, drop: int) -> int:
             for nd in nodeset:
                 # the published rule hashes '<node>-<key>'; a bytes key appears as Python renders it (repr)
                 text = nd + "-" + (key if isinstance(key, str) else repr(key))
-                if any(ord(c) > 255 for c in text):
-                    return None
-                sc = ref_py([ord(c) for c in text], seed)
+                # code points above 255: the released function hashes the low byte of each (the masks in murmur3_32);
+                # placement has to agree between processes, so that behaviour is part of the published rule
+                sc = ref_py([ord(c) % 256 for c in text], seed)
                 if best is None or (sc, nd) > best:
                     best = (sc, nd)
             return best[1] if best else None
@@ -341,7 +341,7 @@ BOUNDS = {
     "quick": "1..4 nodes with symbolic 32-bit scores (ties included) x every insertion order (5 nodes: 12 orders); histories of "
              "3 add/remove events over 4 nodes (re-adding a member included; initial rotation built by add_node or handed to the "
              "constructor) with lookups at symbolic positions; node-name spellings for hosts of 1..3 "
-             "characters over {a,b,1,.,-} x 4 ports (host:port strings, tuples, bare hosts, IPv6 literals, UNIX paths); real murmur3 placement == published rule on 6 node sets x 10 keys x 3 "
+             "characters over {a,b,1,.,-} x 4 ports (host:port strings, tuples, bare hosts, IPv6 literals, UNIX paths); real murmur3 placement == published rule on 6 node sets x 19 keys (str incl. non-Latin-1, bytes) x 3 "
              "seeds x every single-node removal, also through HashClient routing; z3 witnesses: a 4-character key for "
              "every node of 3 node sets",
     "thorough": "5 nodes x all 120 orders, histories of 4 events",
